@@ -33,7 +33,11 @@ func (r *ComDoc) readDir() error {
 	raw := make([]RawDirEnt, count)
 	cooked := make([]DirEnt, count)
 	rootIndex := -1
-	for sector := r.Header.DirNextSector; sector >= 0; sector = r.SAT[sector] {
+	sector := r.Header.DirNextSector
+	for sector >= 0 {
+		if len(files)/count > len(r.SAT) {
+			return errors.New("directory chain loops")
+		}
 		if err := r.readSectorStruct(sector, raw); err != nil {
 			return err
 		}
@@ -48,6 +52,11 @@ func (r *ComDoc) readDir() error {
 			}
 		}
 		files = append(files, cooked...)
+		next, err := nextInChain(r.SAT, sector)
+		if err != nil {
+			return err
+		}
+		sector = next
 	}
 	if rootIndex < 0 {
 		return errors.New("missing root storage")
@@ -78,19 +87,29 @@ func (r *ComDoc) ListDir(parent *DirEnt) ([]*DirEnt, error) {
 	if parent.Type != DirRoot && parent.Type != DirStorage {
 		return nil, errors.New("ListDir() on a non-directory object")
 	}
-	top := &r.Files[parent.StorageRoot]
-	stack := []*DirEnt{top}
+	if parent.StorageRoot == -1 {
+		// empty storage
+		return nil, nil
+	}
+	stack := []int32{parent.StorageRoot}
 	var files []*DirEnt
 	for len(stack) > 0 {
 		i := len(stack) - 1
-		item := stack[i]
+		index := stack[i]
 		stack = stack[:i]
+		if index < 0 || int(index) >= len(r.Files) {
+			return nil, errors.New("directory entry ID is out of range")
+		}
+		if len(files) >= len(r.Files) {
+			return nil, errors.New("directory tree loops")
+		}
+		item := &r.Files[index]
 		files = append(files, item)
 		if item.LeftChild != -1 {
-			stack = append(stack, &r.Files[item.LeftChild])
+			stack = append(stack, item.LeftChild)
 		}
 		if item.RightChild != -1 {
-			stack = append(stack, &r.Files[item.RightChild])
+			stack = append(stack, item.RightChild)
 		}
 	}
 	return files, nil
